@@ -191,12 +191,15 @@ class LightListener(Listener):
         self.frame = frame
 
     def info(self, orb):
+        # 'orb' is the state just after the crossing in the direction of the
+        # iteration, i.e. just before it in time for a backward iteration
+        forward = self.prev is None or orb.date >= self.prev.date
+        entry = (self(orb) <= 0) == forward
+
         if self.type == self.UMBRA:
-            return LightEvent(self, "Umbra entry" if self(orb) <= 0 else "Umbra exit")
+            return LightEvent(self, "Umbra entry" if entry else "Umbra exit")
         else:
-            return LightEvent(
-                self, "Penumbra entry" if self(orb) <= 0 else "Penumbra exit"
-            )
+            return LightEvent(self, "Penumbra entry" if entry else "Penumbra exit")
 
     def __call__(self, orb):
         """
@@ -344,9 +347,10 @@ class ApsideListener(Listener):
         self.frame = frame
 
     def info(self, orb):
-        return ApsideEvent(
-            self, "Periapsis" if self(orb) > self(self.prev) else "Apoapsis"
-        )
+        # The radial velocity increases with time at the periapsis, whatever the
+        # direction of the iteration
+        rising = (self(orb) > self(self.prev)) == (orb.date >= self.prev.date)
+        return ApsideEvent(self, "Periapsis" if rising else "Apoapsis")
 
     def __call__(self, orb):
         orb = orb.copy(form="spherical", frame=self.frame)
@@ -474,7 +478,9 @@ class StationMaskListener(StationSignalListener):
         self.station = station
 
     def info(self, orb):
-        return self.event(self, "AOS" if self(orb) > self(self.prev) else "LOS")
+        # Rising above the mask with time, whatever the direction of the iteration
+        rising = (self(orb) > self(self.prev)) == (orb.date >= self.prev.date)
+        return self.event(self, "AOS" if rising else "LOS")
 
     def check(self, orb):
         # Override to disable the computation when the object is not
